@@ -66,6 +66,21 @@ def gen_cases(tier, seed):
         td = bool(k % 3 == 2) or (k % 4 == 1)
         cases.append({"layer": "L2", "device": dev, "options": o, "B": B, "c": c, "time_dependent": td, "pulse": bool(k % 4 == 1),
                       "currents": S.current_spec(rng, dev, o, "const" if nt and k % 2 == 0 else "none", strength=0.15), "cost": 60 if scr else 20})
+    nslow = 2 if tier == "quick" else 12
+    for k in range(nslow):
+        # slowly creeping field, offset much larger than A itself: the per-step change of A is tiny relative to |A + c|
+        nt = [0, 2][k % 2]
+        dev = zoo.gen_device(rng, n_terminals=nt, n_holes=0, probes=0, size="small", smooth=0, gamma=float(rng.choice([0.0, 1.0, 10.0])))
+        o = S.base_options(rng, adaptive=bool(k % 2), steps=150)
+        o.update(dt_max=0.02, dt_init=4e-3, solve_time=0.6, terminal_psi=0.0)
+        sc = S._scales(dev, o)
+        B = 0.3 * sc.Bc2 / sc.fu
+        Amax = B * dev["film"].get("w", 4.0) / 2
+        ang = float(rng.uniform(0, 2 * np.pi))
+        fac = [30.0, 300.0, 3000.0][k % 3]
+        c = [Amax * fac * np.cos(ang), Amax * fac * np.sin(ang)]
+        cases.append({"layer": "L2", "device": dev, "options": o, "B": B, "c": c, "time_dependent": True, "pulse": False, "slow": True,
+                      "currents": S.current_spec(rng, dev, o, "const" if nt else "none", strength=0.15), "cost": 20})
     return cases
 
 
@@ -197,9 +212,12 @@ def _uniform_shifted(x, y, z, *, B, cx, cy):
     return np.stack([-B * y / 2 + cx, B * x / 2 + cy, np.zeros_like(x)], axis=1)
 
 
-def _uniform_shifted_td(x, y, z, *, t, B, cx, cy, T, pulse=False):
+def _uniform_shifted_td(x, y, z, *, t, B, cx, cy, T, pulse=False, slow=False):
     x = np.atleast_1d(x); y = np.atleast_1d(y)
     f = min(1.0, t / T) if T > 0 else 1.0
+    if slow:
+        # a field that creeps up by 2 % only: per-step increments of A far below |c|
+        f = 1.0 + 0.02 * f
     if pulse:
         # ramp up, ramp down, then exactly zero field (in the unshifted gauge A returns to exactly 0)
         f = max(0.0, 1.0 - abs(t / T - 1.0)) if T > 0 else 0.0
@@ -249,7 +267,7 @@ def _l2(spec):
     runs = []
     for shift in ((0.0, 0.0), tuple(c)):
         if spec["time_dependent"]:
-            avp = tdgl.Parameter(_uniform_shifted_td, B=float(B), cx=float(shift[0]), cy=float(shift[1]), T=float(T), pulse=bool(spec.get("pulse")), time_dependent=True)
+            avp = tdgl.Parameter(_uniform_shifted_td, B=float(B), cx=float(shift[0]), cy=float(shift[1]), T=float(T), pulse=bool(spec.get("pulse")), slow=bool(spec.get("slow")), time_dependent=True)
         else:
             avp = tdgl.Parameter(_uniform_shifted, B=float(B), cx=float(shift[0]), cy=float(shift[1]))
         keep = _Keep()
@@ -322,7 +340,7 @@ def _l2(spec):
     o = spec["options"]
     return {"violations": V, "counters": C, "worst": W,
             "classes": ["L2", "screening=" + str(bool(o.get("include_screening"))), "adaptive=" + str(o["adaptive"]), f"terminals={len(spec['device']['terminals'])}",
-                        "I=" + spec["currents"]["kind"], "time_dependent=" + str(spec["time_dependent"]), "pulse=" + str(bool(spec.get("pulse")))],
+                        "I=" + spec["currents"]["kind"], "time_dependent=" + str(spec["time_dependent"]), "pulse=" + str(bool(spec.get("pulse"))), "slow=" + str(bool(spec.get("slow")))],
             "nontrivial": C["run_steps_compared"] >= 20, "sample": {"steps": len(a), "shift": c, "worst_over_gate": W}}
 
 
